@@ -1,6 +1,6 @@
 \* step-level pass P (hook H3): recorded scalars at every step, the full property on real snapshots at quiescence
-CONSTANT Threads <- HThreads
-CONSTANT Keys <- HKeys
+CONSTANT Threads = {"t1", "t2", "t3", "t4"}
+CONSTANT Keys <- TKeys
 CONSTANT CvKeys = {}
 CONSTANT RevKeys = {}
 CONSTANT DocOf <- HDocOf
@@ -14,7 +14,7 @@ CONSTANT MaxOps = 1000000
 CONSTANT MaxSteps = 1000000
 CONSTANT SplitLoad = FALSE
 CONSTANT MaxUpd = 1000000
-CONSTANT Pool <- HPool
+CONSTANT Pool = 10
 CONSTANT SeqPrefix = 0
 CONSTRAINT Progress
 POSTCONDITION Accept
